@@ -102,6 +102,9 @@ var protectedCalls = map[string]string{
 	"generateSequenceReset": "callGenerateSequenceReset", "sendBytes": "sendBytes",
 	"SaveMessageAndIncrNextSenderMsgSeqNum": "storeSaveIncr", "IncrNextSenderMsgSeqNum": "storeIncrSender",
 	"NextSenderMsgSeqNum": "readSeq", "Reset": "storeReset",
+	// the foreign-goroutine path of ResetSession (registry.go): ShutdownNow -> sendLogout -> … -> sendInReplyTo, dropAndReset
+	"ShutdownNow": "callShutdownNow", "dropAndReset": "callDropAndReset", "sendLogout": "callSendLogout",
+	"sendLogoutInReplyTo": "callSendLogoutInReplyTo", "sendInReplyTo": "callSendInReplyTo", "queueForSend": "callQueueForSend",
 }
 
 // skeleton returns the source-order tokens of lock operations and protected actions; deferred unlocks are
@@ -209,6 +212,12 @@ var skelFuncs = []skelSpec{
 	{"session_state.go", "stateMachine", "SendAppMessages", "sendAppMessages"},
 	{"in_session.go", "inSession", "resendMessages", "resendMessages"},
 	{"in_session.go", "inSession", "generateSequenceReset", "generateSequenceReset"},
+	{"registry.go", "", "ResetSession", "resetSession"},
+	{"session_state.go", "loggedOn", "ShutdownNow", "shutdownNow_loggedOn"},
+	{"session_state.go", "connectedNotLoggedOn", "ShutdownNow", "shutdownNow_notLoggedOn"},
+	{"latent_state.go", "latentState", "ShutdownNow", "shutdownNow_latent"},
+	{"session.go", "session", "sendLogout", "sendLogout"},
+	{"session.go", "session", "sendLogoutInReplyTo", "sendLogoutInReplyTo"},
 }
 
 // ---------------------------------------------------------------- tables and constants
@@ -375,6 +384,36 @@ func runExtract(repo, dir string) {
 			}
 		}
 	}
+	// every type that implements ShutdownNow (the operator's ResetSession runs it on a foreign goroutine)
+	var shutdownImpls []string
+	if gofiles, err := filepath.Glob(filepath.Join(x.repo, "*.go")); err == nil {
+		for _, gf := range gofiles {
+			base := filepath.Base(gf)
+			if strings.HasSuffix(base, "_test.go") || strings.HasPrefix(base, "verif_") {
+				continue
+			}
+			f := x.file(base)
+			if f == nil {
+				continue
+			}
+			for _, d := range f.Decls {
+				fd, ok := d.(*ast.FuncDecl)
+				if !ok || fd.Name.Name != "ShutdownNow" || fd.Recv == nil || len(fd.Recv.List) == 0 {
+					continue
+				}
+				switch t := fd.Recv.List[0].Type.(type) {
+				case *ast.Ident:
+					shutdownImpls = append(shutdownImpls, t.Name)
+				case *ast.StarExpr:
+					if id, ok := t.X.(*ast.Ident); ok {
+						shutdownImpls = append(shutdownImpls, id.Name)
+					}
+				}
+			}
+		}
+	}
+	sort.Strings(shutdownImpls)
+	sb.WriteString("def shutdownNowImpls : List String := " + leanStrList(shutdownImpls) + "\n")
 	sort.Strings(touchers)
 	sb.WriteString("\n/-- every function that touches the send queue, numbering or persistence -/\n")
 	sb.WriteString("def sendPathFunctions : List String := " + leanStrList(touchers) + "\n")
